@@ -673,6 +673,21 @@ func (c *c05cfg) check(tc *cache.TableCache, st c05state, p *prng.R) []finding {
 				}
 			}
 		}
+		// 'includes' with the empty set holds for every row, indexed optional column or not
+		for _, sp := range specs {
+			for _, ck := range sp.cols {
+				col := c.t.Col(ck.Column)
+				if ck.Key != nil || !col.IsOptional() {
+					continue
+				}
+				got, err := rc.RowsByCondition([]ovsdb.Condition{{Column: ck.Column, Function: ovsdb.ConditionIncludes, Value: dyn.ToOvs(col, ref.Datum{})}})
+				if err != nil {
+					fs = append(fs, finding{"C05/lookup/RowsByCondition-error", err.Error()})
+				} else if len(got) != len(rows) {
+					fs = append(fs, finding{"C05/lookup/RowsByCondition/includes-empty-on-indexed-optional", fmt.Sprintf("RowsByCondition(%s includes []) returns %d of %d rows", ck.Column, len(got), len(rows))})
+				}
+			}
+		}
 		partitions("/after-read-only-condition-lookups")
 	}
 	return fs
